@@ -41,7 +41,7 @@ for sid in ids:
     finally:
         subprocess.run(["git", "-C", "/repo", "worktree", "remove", "--force", wt], capture_output=True)
         tag = hashlib.sha1(wt.encode()).hexdigest()[:8]
-        subprocess.run(["rm", "-rf", os.path.join(ROOT, "harness", "target-" + tag)])
+        subprocess.run(["rm", "-rf", os.path.join(ROOT, "harness", "target-" + tag), os.path.join(ROOT, "work", "hm-" + tag), os.path.join(ROOT, "work", "scratch-" + tag)])
 # results table
 rows = []
 for sid in sorted(d for d in os.listdir(SEED) if os.path.isdir(os.path.join(SEED, d))):
